@@ -37,13 +37,15 @@ def excluded(st, a, k):
 def definitions(st, a):
     """defining equations of the chain and of the spec function `resolved` over the entry state (recursive definitions: consistent)"""
     n = z3.Int("n_res"); k = z3.Const("k_res", K)
-    h1, v1 = chain_has(st, a, n + 1, k)
+    # stated for m = n >= 1 in terms of n - 1 (the left-hand sides RD(n, k), NAME(n) are then usable as quantifier patterns)
+    h1, v1 = chain_has(st, a, n, k)
     h0, v0 = chain_has(st, a, z3.IntVal(0), k)
-    he, ve = chain_has(st, a, n, EXT)
+    he, ve = chain_has(st, a, n - 1, EXT)
     return [NAME(0) == a["parent_name"].term,
-            z3.ForAll([n], z3.Implies(n >= 0, NAME(n + 1) == dyn_str(ve))),
+            z3.ForAll([n], z3.Implies(n >= 1, NAME(n) == dyn_str(ve)), patterns=[NAME(n)]),
             z3.ForAll([k], z3.And(RD(0, k) == h0, RV(0, k) == v0)),
-            z3.ForAll([n, k], z3.Implies(n >= 0, z3.And(RD(n + 1, k) == z3.Or(RD(n, k), z3.And(h1, z3.Not(excluded(st, a, k)))), RV(n + 1, k) == z3.If(RD(n, k), RV(n, k), v1))))]
+            z3.ForAll([n, k], z3.Implies(n >= 1, z3.And(RD(n, k) == z3.Or(RD(n - 1, k), z3.And(h1, z3.Not(excluded(st, a, k)))), RV(n, k) == z3.If(RD(n - 1, k), RV(n - 1, k), v1))),
+                      patterns=[RD(n, k), RV(n, k)])]
 
 
 def je_pre(st, a):
